@@ -97,6 +97,9 @@ def render(r, style, pad):
         text = "r1 : " + text
     elif pad == "name_ws":
         text = " my ranking :" + text + "\n"
+    elif pad == "name_colon":
+        # the name itself may contain the separator: everything up to the LAST colon is the name
+        text = "run:2 : " + text
     return text
 
 
@@ -104,7 +107,7 @@ def render(r, style, pad):
 def roundtrip_cases(draw, tier):
     kind, r = draw(rt_rankings())
     return {"kind": kind, "ranking": r, "style": draw(st.sampled_from(["str", "braces", "brackets", "tight"])),
-            "pad": draw(st.sampled_from(["none", "ws", "name", "name_ws"]))}
+            "pad": draw(st.sampled_from(["none", "ws", "name", "name_ws", "name_colon"]))}
 
 
 def check_roundtrip(case, ctx):
